@@ -17,7 +17,7 @@ RULE = ('directions: boundary grid (every 5 deg) and seeded-random points with h
         'both projection paths. distinct_nontrivial = distinct inputs (quantised to 1e-12) that reached a monitor.')
 ASSUMPTIONS = ['float32 accuracy bound of the statement taken as 1e-6 rad (measured worst values are in the evidence)',
                'V2 reference: light plane through the rotation axis direction tilted by 30 deg, n(a).d = 0']
-REQUIRED = ['mon.poses_from_quaternions_not_of_unit_length', 'mon.vector_answers_modified_by_the_caller', 'mon.list_helpers_asked_again_after_the_list_changed', 'mon.v1_v2_v1', 'mon.v1_cart_v1', 'mon.v1_proj_v1', 'mon.v2_plane_reference', 'mon.pose_inverse',
+REQUIRED = ['mon.solver_poses_with_exactly_zero_translation', 'mon.poses_from_quaternions_not_of_unit_length', 'mon.vector_answers_modified_by_the_caller', 'mon.list_helpers_asked_again_after_the_list_changed', 'mon.v1_v2_v1', 'mon.v1_cart_v1', 'mon.v1_proj_v1', 'mon.v2_plane_reference', 'mon.pose_inverse',
             'mon.pose_associativity', 'mon.pose_views', 'mon.solver_projection', 'mon.solver_zero_rotation', 'mon.ippe_axes', 'mon.pose_laws_after_history',
             'mon.solver_pairs_with_crazyflie_behind_the_base_station', 'mon.solver_non_canonical_rotation_vectors']
 
@@ -314,6 +314,18 @@ def run_solver(desc, ctx):
                 behind = True
             else:
                 behind = False
+            if rnd.random() < 0.15:
+                # a pose IN the origin of the frame (the first sample defines it) that is turned all the same, or a base
+                # station there; and exact zeros in single coordinates
+                which0 = rnd.randrange(3)
+                if which0 == 0:
+                    tc = np.zeros(3)
+                elif which0 == 1:
+                    tb = np.zeros(3)
+                else:
+                    tc = np.array(tc, dtype=float)
+                    tc[rnd.randrange(3)] = 0.0
+                ctx.count('mon.solver_poses_with_exactly_zero_translation')
             B, C = Pose(Rb, tb), Pose(Rc, tc)
             s = lhgen.SENSORS[rnd.randrange(4)]
             if behind and float(B.inv_rotate_translate(C.rotate_translate(s))[0]) < 0:
